@@ -5,3 +5,7 @@ package comet
 // verifPoint marks a point of interest for the verification harness (/verif).
 // Without the verif build tag it is an empty function.
 func verifPoint(name string, args ...uint64) {}
+
+// verifFault lets the verification harness inject an I/O failure at a named point.
+// Without the verif build tag it never fails.
+func verifFault(name string) error { return nil }
